@@ -5,62 +5,99 @@ Import ListNotations.
 
 Definition inv (st : gstate) : Prop :=
   (forall i, ok (held (threads st i)) (todo (threads st i)) = true) /\
-  (forall i, held (threads st i) = true <-> holder st = Some i).
+  (forall i, held (threads st i) = HW <-> holder st = Some i) /\
+  (holder st <> None -> forall j, held (threads st j) <> HR).
 
 Lemma upd_same f i x : upd f i x i = x.
 Proof. unfold upd. rewrite Nat.eqb_refl. reflexivity. Qed.
 Lemma upd_other f i x j : j <> i -> upd f i x j = f j.
 Proof. intros H. unfold upd. apply Nat.eqb_neq in H. rewrite H. reflexivity. Qed.
 
+Lemma ok_cons_other a l h : is_lock_op a = false -> ok h (a :: l) = true -> ok h l = true.
+Proof. intros Ha H. destruct a; try discriminate; cbn [ok] in H; destruct h; try discriminate; exact H. Qed.
+
 Lemma inv_step st st' : inv st -> step st st' -> inv st'.
 Proof.
-  intros [Hok Hh] Hs. inversion Hs; subst; clear Hs; split; cbn [threads holder]; intros j.
-  - destruct (Nat.eq_dec j i) as [->|Hne]; [rewrite upd_same|rewrite upd_other by exact Hne; apply Hok].
-    cbn [todo held]. specialize (Hok i). rewrite H in Hok. cbn [ok] in Hok.
-    destruct (held (threads st i)); [discriminate|exact Hok].
-  - destruct (Nat.eq_dec j i) as [->|Hne]; [rewrite upd_same; cbn; tauto|rewrite upd_other by exact Hne].
-    split; intros Hj.
-    + apply Hh in Hj. congruence.
-    + inversion Hj; congruence.
-  - destruct (Nat.eq_dec j i) as [->|Hne]; [rewrite upd_same|rewrite upd_other by exact Hne; apply Hok].
-    cbn [todo held]. specialize (Hok i). rewrite H in Hok. cbn [ok] in Hok.
-    destruct (held (threads st i)); [exact Hok|discriminate].
-  - destruct (Nat.eq_dec j i) as [->|Hne]; [rewrite upd_same; cbn; split; discriminate|rewrite upd_other by exact Hne].
-    split; [|discriminate]. intros Hj.
-    pose proof (Hok i) as Hi. rewrite H in Hi. cbn [ok] in Hi.
-    destruct (held (threads st i)) eqn:Ei; [|discriminate].
-    apply Hh in Ei. apply Hh in Hj. congruence.
-  - destruct (Nat.eq_dec j i) as [->|Hne]; [rewrite upd_same|rewrite upd_other by exact Hne; apply Hok].
-    cbn [todo held]. specialize (Hok i). rewrite H in Hok.
-    destruct a; try congruence; cbn [ok] in Hok; try exact Hok; apply andb_prop in Hok as [_ Hok]; exact Hok.
-  - destruct (Nat.eq_dec j i) as [->|Hne]; [rewrite upd_same; cbn; apply Hh|rewrite upd_other by exact Hne; apply Hh].
+  intros (Hok & Hh & Hr) Hs. inversion Hs; subst; clear Hs.
+  - (* Lock *)
+    pose proof (Hok i) as Oi. rewrite H in Oi. cbn [ok] in Oi. destruct (held (threads st i)) eqn:Ei; try discriminate.
+    split; [|split]; cbn [threads holder].
+    + intros j. destruct (Nat.eq_dec j i) as [->|Hne]; [rewrite upd_same; exact Oi|rewrite upd_other by exact Hne; apply Hok].
+    + intros j. destruct (Nat.eq_dec j i) as [->|Hne]; [rewrite upd_same; cbn; tauto|rewrite upd_other by exact Hne].
+      split; intros Hj; [apply Hh in Hj; congruence|inversion Hj; congruence].
+    + intros _ j. destruct (Nat.eq_dec j i) as [->|Hne]; [rewrite upd_same; cbn; discriminate|rewrite upd_other by exact Hne; apply H1].
+  - (* Unlock *)
+    pose proof (Hok i) as Oi. rewrite H in Oi. cbn [ok] in Oi. destruct (held (threads st i)) eqn:Ei; try discriminate.
+    split; [|split]; cbn [threads holder].
+    + intros j. destruct (Nat.eq_dec j i) as [->|Hne]; [rewrite upd_same; exact Oi|rewrite upd_other by exact Hne; apply Hok].
+    + intros j. destruct (Nat.eq_dec j i) as [->|Hne]; [rewrite upd_same; cbn; split; discriminate|rewrite upd_other by exact Hne].
+      split; [|discriminate]. intros Hj. apply Hh in Ei. apply Hh in Hj. congruence.
+    + intros C; contradiction C; reflexivity.
+  - (* RLock *)
+    pose proof (Hok i) as Oi. rewrite H in Oi. cbn [ok] in Oi. destruct (held (threads st i)) eqn:Ei; try discriminate.
+    split; [|split]; cbn [threads holder].
+    + intros j. destruct (Nat.eq_dec j i) as [->|Hne]; [rewrite upd_same; exact Oi|rewrite upd_other by exact Hne; apply Hok].
+    + intros j. destruct (Nat.eq_dec j i) as [->|Hne]; [rewrite upd_same; cbn; split; discriminate|rewrite upd_other by exact Hne].
+      rewrite <- H0. apply Hh.
+    + intros C; contradiction C; reflexivity.
+  - (* RUnlock *)
+    pose proof (Hok i) as Oi. rewrite H in Oi. cbn [ok] in Oi. destruct (held (threads st i)) eqn:Ei; try discriminate.
+    split; [|split]; cbn [threads holder].
+    + intros j. destruct (Nat.eq_dec j i) as [->|Hne]; [rewrite upd_same; exact Oi|rewrite upd_other by exact Hne; apply Hok].
+    + intros j. destruct (Nat.eq_dec j i) as [->|Hne]; [rewrite upd_same; cbn|rewrite upd_other by exact Hne; apply Hh].
+      split; [discriminate|]. intros Hj. apply Hh in Hj. congruence.
+    + intros Hn j. destruct (Nat.eq_dec j i) as [->|Hne]; [rewrite upd_same; cbn; discriminate|rewrite upd_other by exact Hne; apply Hr; exact Hn].
+  - (* any other action *)
+    split; [|split]; cbn [threads holder].
+    + intros j. destruct (Nat.eq_dec j i) as [->|Hne]; [rewrite upd_same|rewrite upd_other by exact Hne; apply Hok].
+      cbn [todo held]. specialize (Hok i). rewrite H in Hok. exact (ok_cons_other _ _ _ H0 Hok).
+    + intros j. destruct (Nat.eq_dec j i) as [->|Hne]; [rewrite upd_same; cbn; apply Hh|rewrite upd_other by exact Hne; apply Hh].
+    + intros Hn j. destruct (Nat.eq_dec j i) as [->|Hne]; [rewrite upd_same; cbn; apply Hr; exact Hn|rewrite upd_other by exact Hne; apply Hr; exact Hn].
+Qed.
+
+Lemma access_held a l h x w : ok h (a :: l) = true -> access a = Some (x, w) ->
+  h <> HN /\ (w = true -> h = HW).
+Proof.
+  intros Ho Ha. destruct a; cbn in Ha; try discriminate; injection Ha as <- <-; cbn [ok] in Ho; destruct h; try discriminate;
+    (split; [discriminate|]); intros; try reflexivity; discriminate.
 Qed.
 
 Lemma inv_no_race st : inv st -> ~ race st.
 Proof.
-  intros [Hok Hh] (i & j & a & b & la & lb & x & wa & wb & Hne & Hi & Hj & Ha & Hb & _).
+  intros (Hok & Hh & Hr) (i & j & a & b & la & lb & x & wa & wb & Hne & Hi & Hj & Ha & Hb & Hw).
   pose proof (Hok i) as Oi. pose proof (Hok j) as Oj. rewrite Hi in Oi. rewrite Hj in Oj.
-  assert (held (threads st i) = true).
-  { destruct a; cbn in Ha; try discriminate; cbn [ok] in Oi; apply andb_prop in Oi as [Oi _]; exact Oi. }
-  assert (held (threads st j) = true).
-  { destruct b; cbn in Hb; try discriminate; cbn [ok] in Oj; apply andb_prop in Oj as [Oj _]; exact Oj. }
-  apply Hh in H. apply Hh in H0. congruence.
+  destruct (access_held _ _ _ _ _ Oi Ha) as [Ni Wi]. destruct (access_held _ _ _ _ _ Oj Hb) as [Nj Wj].
+  apply orb_true_iff in Hw. destruct Hw as [->| ->].
+  - specialize (Wi eq_refl). pose proof (proj1 (Hh i) Wi) as Hi'.
+    destruct (held (threads st j)) eqn:Ej; [contradiction Nj; reflexivity| |].
+    + apply (Hr ltac:(rewrite Hi'; discriminate) j). exact Ej.
+    + apply Hh in Ej. congruence.
+  - specialize (Wj eq_refl). pose proof (proj1 (Hh j) Wj) as Hj'.
+    destruct (held (threads st i)) eqn:Ei; [contradiction Ni; reflexivity| |].
+    + apply (Hr ltac:(rewrite Hj'; discriminate) i). exact Ei.
+    + apply Hh in Ei. congruence.
 Qed.
 
 Lemma inv_no_overlap st : inv st -> ~ overlap st.
-Proof. intros [_ Hh] (i & j & Hne & Hi & Hj). apply Hh in Hi. apply Hh in Hj. congruence. Qed.
+Proof.
+  intros (_ & Hh & Hr) (i & j & Hne & Hi & Hj). pose proof (proj1 (Hh i) Hi) as Hi'.
+  destruct (held (threads st j)) eqn:Ej; [contradiction Hj; reflexivity| |].
+  - apply (Hr ltac:(rewrite Hi'; discriminate) j). exact Ej.
+  - apply Hh in Ej. congruence.
+Qed.
 
-Lemma inv_reachable code st : (forall i, ok false (code i) = true) -> reachable (initial code) st -> inv st.
+Lemma inv_reachable code st : (forall i, ok HN (code i) = true) -> reachable (initial code) st -> inv st.
 Proof.
   intros Hcode Hr. induction Hr as [|s s' _ IH Hs].
-  - split; cbn; intros i; [apply Hcode|split; discriminate].
+  - split; [|split]; cbn; [intros i; apply Hcode|intros i; split; discriminate|intros C; contradiction C; reflexivity].
   - eapply inv_step; eassumption.
 Qed.
 
-(* any number of threads, any interleaving that respects the lock: no data race, no two threads inside a
-   critical section at once (so what one critical section reads is the whole of what another wrote) *)
+(* any number of threads, any interleaving that respects the lock (a writer excludes everybody, readers exclude
+   writers): no data race, and never a thread inside a write critical section while another is inside any critical
+   section (so what one critical section reads is the whole of what another wrote) *)
 Theorem discipline_sound (code : nat -> list action) :
-  (forall i, ok false (code i) = true) ->
+  (forall i, ok HN (code i) = true) ->
   forall st, reachable (initial code) st -> ~ race st /\ ~ overlap st.
 Proof.
   intros Hcode st Hr. pose proof (inv_reachable code st Hcode Hr) as I. split; [apply inv_no_race|apply inv_no_overlap]; exact I.
@@ -75,16 +112,20 @@ Qed.
 Lemma final_app h l1 l2 : final h (l1 ++ l2) = final (final h l1) l2.
 Proof. revert h; induction l1 as [|a l IH]; intros h; [reflexivity|]. destruct a; cbn; apply IH. Qed.
 
-Definition post (r : option (option bool)) (h : bool) (l : list action) (ret : bool) : Prop :=
-  ok h l = true /\ (ret = true -> final h l = false) /\ (ret = false -> r = Some (Some (final h l))).
+Lemma hm_eqb_eq a b : hm_eqb a b = true -> a = b.
+Proof. destruct a, b; cbn; intros H; try discriminate; reflexivity. Qed.
+
+Lemma act_check_sound a h h' : act_check a h = Some h' -> ok h [a] = true /\ final h [a] = h'.
+Proof. destruct a, h; cbn; intros H; try discriminate; injection H as <-; split; reflexivity. Qed.
 
 Lemma check_sound s : forall h r l ret, check s h = Some r -> path s l ret ->
-  ok h l = true /\ (ret = true -> final h l = false) /\ (ret = false -> r = Some (final h l)).
+  ok h l = true /\ (ret = true -> final h l = HN) /\ (ret = false -> r = Some (final h l)).
 Proof.
   induction s as [| a | |a IHa b IHb|a IHa b IHb|a IHa|c IHc]; intros h r l ret Hc Hp.
   - inversion Hp; subst. cbn in Hc. injection Hc as <-. repeat split; try discriminate; reflexivity.
-  - inversion Hp; subst. destruct a, h; cbn in Hc; inversion Hc; repeat split; try discriminate; reflexivity.
-  - inversion Hp; subst. cbn in Hc. destruct h; [discriminate|]. injection Hc as <-. repeat split; try discriminate; reflexivity.
+  - inversion Hp; subst. cbn [check] in Hc. destruct (act_check a h) as [h'|] eqn:E; [|discriminate]. injection Hc as <-.
+    destruct (act_check_sound a h h' E) as [O F]. repeat split; [exact O|discriminate|intros _; rewrite F; reflexivity].
+  - inversion Hp; subst. cbn in Hc. destruct h; try discriminate. injection Hc as <-. repeat split; try discriminate; reflexivity.
   - cbn in Hc. destruct (check a h) as [[h1|]|] eqn:E1; [| |discriminate].
     + inversion Hp as [| | |a0 b0 la Pa|a0 b0 la lb r0 Pa Pb| | | | | |]; subst.
       * destruct (IHa _ _ _ _ E1 Pa) as (O1 & F1 & _). repeat split; [exact O1|intros _; apply F1; reflexivity|discriminate].
@@ -96,18 +137,15 @@ Proof.
       * destruct (IHa _ _ _ _ E1 Pa) as (_ & _ & F1). specialize (F1 eq_refl). discriminate.
   - cbn in Hc.
     destruct (check a h) as [[h1|]|] eqn:E1; destruct (check b h) as [[h2|]|] eqn:E2; try discriminate.
-    + (* both may fall through: with the same flag *)
-      destruct (Bool.eqb h1 h2) eqn:E; [|discriminate]. apply eqb_prop in E. subst h2. injection Hc as <-.
+    + destruct (hm_eqb h1 h2) eqn:E; [|discriminate]. apply hm_eqb_eq in E. subst h2. injection Hc as <-.
       inversion Hp as [| | | | |a0 b0 l0 r0 Pa|a0 b0 l0 r0 Pb| | | |]; subst.
       * exact (IHa _ _ _ _ E1 Pa).
       * exact (IHb _ _ _ _ E2 Pb).
-    + (* the right branch always returns *)
-      injection Hc as <-.
+    + injection Hc as <-.
       inversion Hp as [| | | | |a0 b0 l0 r0 Pa|a0 b0 l0 r0 Pb| | | |]; subst.
       * exact (IHa _ _ _ _ E1 Pa).
       * destruct (IHb _ _ _ _ E2 Pb) as (O & F & G). repeat split; [exact O|exact F|]. intros Hr. specialize (G Hr). discriminate.
-    + (* the left branch always returns *)
-      injection Hc as <-.
+    + injection Hc as <-.
       inversion Hp as [| | | | |a0 b0 l0 r0 Pa|a0 b0 l0 r0 Pb| | | |]; subst.
       * destruct (IHa _ _ _ _ E1 Pa) as (O & F & G). repeat split; [exact O|exact F|]. intros Hr. specialize (G Hr). discriminate.
       * exact (IHb _ _ _ _ E2 Pb).
@@ -116,7 +154,7 @@ Proof.
       * exact (IHa _ _ _ _ E1 Pa).
       * exact (IHb _ _ _ _ E2 Pb).
   - cbn in Hc. destruct (check a h) as [[h1|]|] eqn:E1; [| |discriminate].
-    + destruct (Bool.eqb h1 h) eqn:E; [|discriminate]. apply eqb_prop in E. subst h1. injection Hc as <-.
+    + destruct (hm_eqb h1 h) eqn:E; [|discriminate]. apply hm_eqb_eq in E. subst h1. injection Hc as <-.
       remember (Loop a) as la eqn:El. induction Hp as [| | | | | | |a0|a0 l1 l2 r0 P1 _ P2 IH2|a0 l1 P1|]; inversion El; subst.
       * repeat split; try discriminate; reflexivity.
       * destruct (IHa _ _ _ _ E1 P1) as (O1 & _ & G1). specialize (G1 eq_refl). injection G1 as G1.
@@ -129,7 +167,7 @@ Proof.
       * destruct (IHa _ _ _ _ E1 P1) as (O1 & F1 & _). repeat split; [exact O1|exact F1|discriminate].
   - cbn in Hc. inversion Hp as [| | | | | | | | | |s0 l0 r0 Pc]; subst.
     destruct (check c h) as [[h1|]|] eqn:E1; [| |discriminate].
-    + destruct h1; [discriminate|]. injection Hc as <-.
+    + destruct h1; try discriminate. injection Hc as <-.
       destruct (IHc _ _ _ _ E1 Pc) as (O1 & F1 & G1). repeat split; [exact O1|discriminate|].
       intros _. destruct r0; [rewrite (F1 eq_refl); reflexivity|specialize (G1 eq_refl); injection G1 as <-; reflexivity].
     + injection Hc as <-. destruct (IHc _ _ _ _ E1 Pc) as (O1 & F1 & G1). repeat split; [exact O1|discriminate|].
@@ -137,9 +175,9 @@ Proof.
 Qed.
 
 (* a disciplined method: every path, returning or falling off the end, is a balanced sequence of critical sections *)
-Theorem disciplined_paths s l ret : disciplined s = true -> path s l ret -> ok false l = true /\ final false l = false.
+Theorem disciplined_paths s l ret : disciplined s = true -> path s l ret -> ok HN l = true /\ final HN l = HN.
 Proof.
-  unfold disciplined. destruct (check s false) as [[[|]|]|] eqn:E; try discriminate; intros _ Hp;
+  unfold disciplined. destruct (check s HN) as [[[| |]|]|] eqn:E; try discriminate; intros _ Hp;
     destruct (check_sound _ _ _ _ _ E Hp) as (O & F & G); (split; [exact O|]); destruct ret.
   - apply F; reflexivity.
   - specialize (G eq_refl). injection G as G. symmetry. exact G.
@@ -148,8 +186,8 @@ Proof.
 Qed.
 
 (* a thread that calls disciplined methods one after the other *)
-Lemma ok_concat ls : Forall (fun l => ok false l = true /\ final false l = false) ls ->
-  ok false (concat ls) = true /\ final false (concat ls) = false.
+Lemma ok_concat ls : Forall (fun l => ok HN l = true /\ final HN l = HN) ls ->
+  ok HN (concat ls) = true /\ final HN (concat ls) = HN.
 Proof.
   induction 1 as [|l ls [O F] _ [IO IF]]; [split; reflexivity|]. cbn [concat].
   rewrite ok_app_iff, final_app, O, F, IO, IF. split; reflexivity.
